@@ -307,6 +307,14 @@ def run(props, tier, seed):
             v = verdict(shuffled, base, w, **kw)
             if v is not None:
                 b.check('C05.sortby-condition', v == expect, w, 'pass=%r expected %r' % (v, expect))
+        # both frames out of key order, each in its own order: sortby must bring both into the same order
+        shuffled2 = base.iloc[[1, 2, 0]].reset_index(drop=True)
+        for kw, expect in (({}, False), ({'sortby': ['a']}, True)):
+            w = {'case': 'sortby, both frames unsorted', 'options': sorted(kw)}
+            b.case(('sort-both', tuple(sorted(kw))))
+            v = verdict(shuffled.copy(), shuffled2.copy(), w, **kw)
+            if v is not None:
+                b.check('C05.sortby-condition', v == expect, w, 'pass=%r expected %r' % (v, expect))
         # files
         for ext in ('parquet', 'csv', 'csv-dates'):
             refp = os.path.join(top, 'ref.' + ext.split('-')[0])
